@@ -253,6 +253,20 @@ outer:
 	for range feed {
 		sum += 1000
 	}
+	calls := 0
+	mk := func() chan int64 { calls++; return make(chan int64, 1) }
+	val := func() int64 { calls += 10; return 7 }
+	big := mk()
+	big <- 1
+	select {
+	case big <- 5:
+		sum += 5
+	case mk() <- val():
+		sum += 7
+	case <-time.After(time.Hour):
+		sum += 100000
+	}
+	sum += calls
 	var s string
 	tick := time.NewTimer(time.Millisecond)
 	select {
